@@ -258,6 +258,10 @@ func probesFor(p PatSpec) []OriginSpec {
 			d32 := "0123456789abcdef0123456789abcdef"
 			hosts = append(hosts, l63+"."+h, "9"+l63[1:]+"."+h, d32+"."+d32+"."+h, "a1b2c3d4e5f6a7b8c9d0e1f2a3b4c5d6."+d32+"."+h,
 				"0."+h, "9z."+h, "x1.0y.2z."+h, "1.2.3."+h, l63+"."+l63+"."+h)
+			// as many one-byte labels as fit into 253 bytes (the trailing dot of the base, if any, does not count)
+			if room := 253 - len(strings.TrimSuffix(h, ".")); room >= 2 {
+				hosts = append(hosts, strings.Repeat("a.", room/2)+h, strings.Repeat("b.", room/2-1)+"cc."+h)
+			}
 		}
 		hosts = append(hosts,
 			"a"+h,        // extended on the left without a dot
